@@ -110,6 +110,15 @@ type Style struct {
 	Plain bool
 }
 
+// num renders a non-negative decimal number, now and then with leading zeros (a decimal number is a decimal number:
+// 010 is ten).
+func (st *Style) num(v int) string {
+	if st.Plain || v < 0 || st.Rng.Intn(6) != 0 {
+		return fmt.Sprint(v)
+	}
+	return strings.Repeat("0", 1+st.Rng.Intn(2)) + fmt.Sprint(v)
+}
+
 func (st *Style) kw(s string) string {
 	if st.Plain {
 		return s
@@ -289,10 +298,10 @@ func (q *Query) Render(st *Style) string {
 		clauses = append(clauses, clause{k, st.kw(k) + by + st.ws() + ob})
 	}
 	if q.Interval != nil {
-		clauses = append(clauses, clause{"interval", st.kw("interval") + st.ws() + fmt.Sprint(*q.Interval)})
+		clauses = append(clauses, clause{"interval", st.kw("interval") + st.ws() + st.num(*q.Interval)})
 	}
 	if q.Limit != nil {
-		clauses = append(clauses, clause{"limit", st.kw("limit") + st.ws() + fmt.Sprint(*q.Limit)})
+		clauses = append(clauses, clause{"limit", st.kw("limit") + st.ws() + st.num(*q.Limit)})
 	}
 	if q.Outfile != nil {
 		t := st.kw("outfile") + st.ws()
